@@ -31,6 +31,7 @@ V_ENSURES(!__CPROVER_return_value || __CPROVER_is_fresh(hash->ctx, 1)) /*@C03.ha
 V_ENSURES(!__CPROVER_return_value || (hash->type == hash_type && hash_type != NULL && hash->ctx != NULL)) /*@C03.hash_init.initialised*/
 V_ENSURES(__CPROVER_return_value || zck == NULL || zck->error_state > 0 || hash->ctx == NULL) /*@C03.hash_init.failure*/
 V_ENSURES(__CPROVER_return_value || hash->ctx == NULL) /*@C03.hash_init.no_ctx_on_failure*/
+V_ENSURES(!__CPROVER_return_value || zck == NULL || zck->error_state == V_OLD(zck->error_state)) /*@C12.hash_init.success_leaves_error_state_alone*/
 V_ENSURES(hash != g_hu_hash || (g_hu_total == 0 && g_hu_seen == 0 && g_hu_final == V_OLD(g_hu_final) && g_hu_inits == V_OLD(g_hu_inits) + 1)) /*@C06,C09.hash_init.restarts_stream*/
 V_ENSURES(hash == g_hu_hash || (g_hu_total == V_OLD(g_hu_total) && g_hu_seen == V_OLD(g_hu_seen) && g_hu_ptr == V_OLD(g_hu_ptr) && g_hu_final == V_OLD(g_hu_final) && g_hu_inits == V_OLD(g_hu_inits))) /*@C06.hash_init.other_hash_untouched*/
 ;
@@ -42,6 +43,7 @@ V_REQUIRES(message == NULL || size == 0 || __CPROVER_r_ok(message, size))      /
 V_ASSIGNS(g_hu_total, g_hu_seen, g_hu_ptr; zck != NULL: zck->error_state)
 V_ENSURES(!__CPROVER_return_value || (message == NULL && size == 0) || (hash != NULL && hash->ctx != NULL && hash->type != NULL)) /*@C03.hash_update.needs_initialised_hash*/
 V_ENSURES(__CPROVER_return_value || zck == NULL || zck->error_state > 0) /*@C12.hash_update.failure_sets_error*/
+V_ENSURES(!__CPROVER_return_value || zck == NULL || zck->error_state == V_OLD(zck->error_state)) /*@C12.hash_update.success_leaves_error_state_alone*/
 #define HU_HIT(h, n) ((h) == g_hu_hash && g_hu_k >= V_OLD(g_hu_total) && g_hu_k - V_OLD(g_hu_total) < (n))
 V_ENSURES(!__CPROVER_return_value || hash != g_hu_hash || message == NULL || g_hu_total == V_OLD(g_hu_total) + size) /*@C06,C09.hash_update.stream_grows_by_size*/
 V_ENSURES(!__CPROVER_return_value || message == NULL || !HU_HIT(hash, size) || (g_hu_seen == V_OLD(g_hu_seen) + 1 && g_hu_ptr == message + (g_hu_k - V_OLD(g_hu_total)))) /*@C06,C09.hash_update.records_fed_byte*/
